@@ -53,6 +53,15 @@ func (g *Gen) loopWrites(li *loopInfo) (objs []string, regions []region, allocs 
 		switch r.(type) {
 		case *ssa.Alloc, *ssa.MakeSlice:
 			if ins := r.(ssa.Instruction); li.body[ins.Block()] {
+				if al, isAl := r.(*ssa.Alloc); isAl {
+					if obj, h := g.hoisted[al]; h {
+						if !seen[obj] {
+							seen[obj] = true
+							objs = append(objs, obj)
+						}
+						return
+					}
+				}
 				allocs = true
 				return
 			}
@@ -85,12 +94,12 @@ func (g *Gen) loopWrites(li *loopInfo) (objs []string, regions []region, allocs 
 				case *types.Pointer:
 					if arr, isArr := u.Elem().Underlying().(*types.Array); isArr {
 						n := int(arr.Len()) * g.lay.Size(arr.Elem())
-						addRegion(region{"*", bv.S[0], bv.S[1], addOff(bv.S[1], n), n})
+						addRegion(region{g.sortsOf(arr.Elem()), bv.S[0], bv.S[1], addOff(bv.S[1], n), n})
 						return
 					}
 				case *types.Slice:
 					sz := g.lay.Size(u.Elem())
-					addRegion(region{"*", bv.S[0], bv.S[1], g.mulAdd(bv.S[1], bv.S[2], sz), -1})
+					addRegion(region{g.sortsOf(u.Elem()), bv.S[0], bv.S[1], g.mulAdd(bv.S[1], bv.S[2], sz), -1})
 					return
 				}
 			}
@@ -100,7 +109,7 @@ func (g *Gen) loopWrites(li *loopInfo) (objs []string, regions []region, allocs 
 				st := a.X.Type().Underlying().(*types.Pointer).Elem().Underlying().(*types.Struct)
 				off := addOff(bv.S[1], g.lay.FieldOff(st, a.Field))
 				n := g.lay.Size(st.Field(a.Field).Type())
-				addRegion(region{"*", bv.S[0], off, addOff(off, n), n})
+				addRegion(region{g.sortsOf(st.Field(a.Field).Type()), bv.S[0], off, addOff(off, n), n})
 				return
 			}
 		default:
@@ -108,12 +117,12 @@ func (g *Gen) loopWrites(li *loopInfo) (objs []string, regions []region, allocs 
 				if pt, isPtr := v.Type().Underlying().(*types.Pointer); isPtr {
 					bv := g.val(v)
 					n := g.lay.Size(pt.Elem())
-					addRegion(region{"*", bv.S[0], bv.S[1], addOff(bv.S[1], n), n})
+					addRegion(region{g.sortsOf(pt.Elem()), bv.S[0], bv.S[1], addOff(bv.S[1], n), n})
 					return
 				}
 				if st, isSl := v.Type().Underlying().(*types.Slice); isSl {
 					bv := g.val(v)
-					addRegion(region{"*", bv.S[0], bv.S[1], g.mulAdd(bv.S[1], bv.S[2], g.lay.Size(st.Elem())), -1})
+					addRegion(region{g.sortsOf(st.Elem()), bv.S[0], bv.S[1], g.mulAdd(bv.S[1], bv.S[2], g.lay.Size(st.Elem())), -1})
 					return
 				}
 			}
@@ -125,8 +134,19 @@ func (g *Gen) loopWrites(li *loopInfo) (objs []string, regions []region, allocs 
 			switch x := ins.(type) {
 			case *ssa.Store:
 				addTarget(x.Addr)
-			case *ssa.Alloc, *ssa.MakeSlice, *ssa.MakeMap, *ssa.MakeChan, *ssa.MakeInterface, *ssa.MakeClosure:
+			case *ssa.Alloc:
+				if obj, h := g.hoisted[x]; h {
+					if !seen[obj] {
+						seen[obj] = true
+						objs = append(objs, obj)
+					}
+				} else {
+					allocs = true
+				}
+			case *ssa.MakeSlice, *ssa.MakeMap, *ssa.MakeChan, *ssa.MakeClosure:
 				allocs = true
+			case *ssa.MakeInterface:
+				// interface boxes are abstract references, not objects
 			case *ssa.Go:
 				allocs = true
 				// goroutine effects are handled by the protocol rules; writes of the closure body
@@ -335,7 +355,21 @@ func (g *Gen) backEdge(li *loopInfo, cond string, pos token.Pos) {
 		if !ok {
 			break
 		}
-		v := g.val(g.phiOperand(phi, g.cur))
+		op := g.phiOperand(phi, g.cur)
+		v := g.val(op)
+		// unsigned induction variable i+c: present the successor syntactically (i + c) once it is shown not to wrap,
+		// so that successor-triggered spec axioms can fire
+		if bo, ok := op.(*ssa.BinOp); ok && bo.Op == token.ADD && bo.X == ssa.Value(phi) {
+			if c, isC := constOf(bo.Y); isC {
+				if _, signed, isInt := intInfo(phi.Type()); isInt && !signed {
+					term := fmt.Sprintf("(+ %s %s)", g.val(phi).S[0], smtInt(c))
+					g.oblige("ovf", fmt.Sprintf("(= %s %s)", term, v.S[0]), pos, "unsigned loop counter does not wrap", nil)
+					nv := *v
+					nv.S = []string{term}
+					v = &nv
+				}
+			}
+		}
 		if phi.Comment != "" {
 			phiVals[phi.Comment] = v
 		}
@@ -368,7 +402,7 @@ func (g *Gen) instr(ins ssa.Instruction) {
 	case *ssa.DebugRef:
 		return
 	case *ssa.Alloc:
-		obj := g.alloc(x.Comment)
+		obj := g.allocAt(x)
 		g.vals[x] = &Val{T: x.Type(), Sort: "Ptr", S: []string{obj, "0"}}
 	case *ssa.Store:
 		addr := g.val(x.Addr)
@@ -583,6 +617,8 @@ func (g *Gen) wellFormedLoaded(v *Val) string {
 	}
 	if _, ok := v.T.Underlying().(*types.Slice); ok && g.view.opaqueSort(v.T) == "" {
 		ps = append(ps, fmt.Sprintf("(<= %s %s)", v.S[2], v.S[3]))
+		ps = append(ps, fmt.Sprintf("(< %s 9223372036854775808)", v.S[3]))
+		ps = append(ps, fmt.Sprintf("(or (>= %s 1) (= %s 0))", v.S[0], v.S[3]))
 	}
 	return and(ps...)
 }
@@ -1118,7 +1154,7 @@ func (g *Gen) frameCheck(env *Env, pos token.Pos) {
 		for _, m := range g.ct.Modifies {
 			fp := g.footprint(entry, m.E)
 			for _, r := range fp {
-				if r.sort != s && r.sort != "*" {
+				if !regionHasSort(r, s) {
 					continue
 				}
 				inFoot = append(inFoot, fmt.Sprintf("(and (= o %s) (<= %s k) (< k %s))", r.obj, r.lo, r.hi))
